@@ -105,6 +105,7 @@ func (s *PacketServer) Serve(conn net.PacketConn) error {
 
 	s.listeners[conn]++
 	s.mu.Unlock()
+	verifPoint("serve.registered")
 
 	type requestKey struct {
 		IP         string
@@ -145,6 +146,7 @@ func (s *PacketServer) Serve(conn net.PacketConn) error {
 		s.activeAdd()
 		go func(buff []byte, remoteAddr net.Addr) {
 			defer s.activeDone()
+			defer verifPoint("datagram.done")
 
 			secret, err := s.SecretSource.RADIUSSecret(s.ctx, remoteAddr)
 			if err != nil {
@@ -249,6 +251,7 @@ func (s *PacketServer) Shutdown(ctx context.Context) error {
 		s.activeDone()
 	}
 	s.mu.Unlock()
+	verifPoint("shutdown.waiting")
 
 	select {
 	case <-s.lastActive:
